@@ -54,11 +54,38 @@ def build_unit(tmpl_path, repo_root, canary=False, verif_root=None):
 
     def source(rel):
         if rel not in sources:
+            if "!" in rel:
+                sources[rel] = macro_instance(rel)
+                return sources[rel]
             p = os.path.join(repo_root, rel)
             if not os.path.exists(p):
                 raise ToolError(f"TOOL: lost anchor: file {rel} missing")
             sources[rel] = Source(rel, open(p).read())
         return sources[rel]
+
+    def macro_instance(rel):
+        """R10: `FILE!MACRO(ARG)` = the body of the single-arm macro_rules MACRO of FILE with its `$x:ty` parameter
+        replaced by ARG, provided FILE really invokes `MACRO!(ARG);` (what rustc's expansion produces, textually)."""
+        m = re.match(r"^(.*)!([A-Za-z_0-9]+)\((.*)\)$", rel)
+        if not m:
+            raise ToolError(f"TOOL: bad macro instance syntax {rel}")
+        file_rel, mac, arg = m.group(1), m.group(2), m.group(3)
+        src = source(file_rel)
+        try:
+            it = src.find("macro " + mac)
+        except AnchorLost as e:
+            raise ToolError(f"TOOL: {e}")
+        body = src.text[src.toks[it.t_body].end:src.toks[it.t_end].start]
+        mm = re.match(r"\s*\(\s*\$([a-z_]+)\s*:\s*ty\s*\)\s*=>\s*\{(.*)\}\s*;?\s*\}?\s*;?\s*$", body, re.S)
+        if not mm:
+            raise ToolError(f"TOOL: unsupported construct: macro_rules {mac} is not a single `($x:ty) => {{..}}` arm")
+        if not re.search(r"\b%s!\(\s*%s\s*\)\s*;" % (re.escape(mac), re.escape(arg)), src.text):
+            raise ToolError(f"TOOL: lost anchor: {file_rel} does not invoke {mac}!({arg})")
+        inst = re.sub(r"\$%s\b" % mm.group(1), arg, mm.group(2))
+        line0 = src.text.count("\n", 0, src.toks[it.t_body].end)
+        gen.rewrites.append({"item": rel, "file": file_rel, "rule": "R10", "what": f"macro_rules {mac} instantiated with ${mm.group(1)} = {arg}"})
+        vs = Source(file_rel, "\n" * line0 + inst)   # keep line numbers of the macro body
+        return vs
 
     def expand(path, depth=0):
         """read a template with #include expanded everywhere; each line keeps its origin (file, lineno)"""
@@ -168,7 +195,8 @@ def build_unit(tmpl_path, repo_root, canary=False, verif_root=None):
                         raise ToolError(f"TOOL: {rel_t}:{ln}: payload without directive")
                 else:
                     cur.payload.append((l, ln))
-        item_rec = {"name": name, "repo_file": file_rel, "repo_line": it.line, "props": list(props), "kind": it.kind,
+        real_file = file_rel.split("!")[0]
+        item_rec = {"name": name, "repo_file": real_file, "repo_line": it.line, "props": list(props), "kind": it.kind,
                     "tmpl": f"{rel_t}:{start_line}", "under_contract": any(d.kind in ("spec", "loop") for d in directives)}
         gen.items.append(item_rec)
         idx = len(gen.items) - 1
@@ -206,7 +234,7 @@ def build_unit(tmpl_path, repo_root, canary=False, verif_root=None):
         new_lines = new.split("\n")
         for k, (okind, ref) in enumerate(origins):
             if okind == "code":
-                infos.append(LineInfo("code", item=idx, repo_file=file_rel, repo_line=it.line + ref, tags=props))
+                infos.append(LineInfo("code", item=idx, repo_file=real_file, repo_line=it.line + ref, tags=props))
             elif okind == "woven":
                 d = ref
                 # template line of this payload line: match by text
